@@ -28,6 +28,38 @@ theorem c14_holder_progress (n : Nat) (progs : Nat → List LOp) (roots : List N
     (hd : 0 < ((run (init progs roots) sched).ths t).depth) : canStep (run (init progs roots) sched) t = true :=
   holder_can_step (run_inv sched _ (init_inv n progs roots hshape hb)) hd
 
+/-- **the lock is never held across a call into the policy source**: in every reachable state a thread that is inside
+    `source.etag()` / `source.load()` does not own the reloader lock -/
+theorem c14_no_lock_during_source_call (n : Nat) (progs : Nat → List LOp) (roots : List Nat)
+    (hshape : LockFreeWhileBlocking n progs roots = true) (hb : ∀ t, n ≤ t → progs t = []) (sched : List Nat) (t : Nat)
+    (p : List LOp) (hp : ((run (init progs roots) sched).ths t).prog = .ext :: p) :
+    (run (init progs roots) sched).owner ≠ some t :=
+  ext_lock_free (run_inv sched _ (init_inv n progs roots hshape hb)) hp
+
+/-- **start / stop / check are not held up by a check that is stuck in the policy source**: while thread `t` (say the
+    polling thread) sits inside a source call for however long, any running thread `u` whose next operation is taking
+    the lock finds a thread other than `t` that can step — itself if the lock is free, else the holder -/
+theorem c14_lock_available_despite_source_call (n : Nat) (progs : Nat → List LOp) (roots : List Nat)
+    (hshape : LockFreeWhileBlocking n progs roots = true) (hb : ∀ t, n ≤ t → progs t = []) (sched : List Nat) (t u : Nat)
+    (p q : List LOp) (hp : ((run (init progs roots) sched).ths t).prog = .ext :: p)
+    (hu : ((run (init progs roots) sched).ths u).prog = .acq :: q)
+    (hst : ((run (init progs roots) sched).ths u).started = true) :
+    ∃ v, v ≠ t ∧ canStep (run (init progs roots) sched) v = true :=
+  acq_progress_despite_ext (run_inv sched _ (init_inv n progs roots hshape hb)) hp hu hst
+
+/-- a check that loads under the lock is rejected by the static condition, and the poller stuck in `load()` then blocks
+    `stop()`: the caller cannot step and the only thread that can is the one inside the source -/
+def loadUnderLock : Nat → List LOp
+  | 0 => [.acq, .rel, .wait 2]
+  | 2 => [.ext, .acq, .ext, .rel]
+  | _ => []
+
+theorem c14_load_under_lock_rejected : LockFreeWhileBlocking 3 loadUnderLock [0, 2] = false := by decide
+
+theorem c14_load_under_lock_blocks_stop :
+    let s := run (init loadUnderLock [0, 2]) [2, 2]
+    (s.ths 2).prog = [.ext, .rel] ∧ s.owner = some 2 ∧ canStep s 0 = false := by decide
+
 /-! ### the pre-repair shapes (finding F10) are deadlocks -/
 
 /-- `start(initial_load=True)` inside a running loop before the repair: the caller takes the lock, submits the check to
@@ -56,8 +88,8 @@ theorem c14_legacy_stop_deadlocks :
 /-- the repaired shapes are accepted (non-vacuity of the hypothesis of `c14_no_deadlock`) -/
 def repairedStart : Nat → List LOp
   | 0 => [.acq, .rel, .spawn 1, .wait 1, .acq, .spawn 2, .rel]
-  | 1 => [.acq, .rel, .work, .work, .acq, .rel]
-  | 2 => [.acq, .rel, .work, .acq, .rel, .acq, .rel]
+  | 1 => [.acq, .rel, .ext, .ext, .acq, .rel]
+  | 2 => [.acq, .rel, .ext, .acq, .rel, .acq, .rel]
   | _ => []
 
 example : LockFreeWhileBlocking 3 repairedStart [0] = true := by decide
